@@ -14,7 +14,7 @@ import re
 import vlib
 
 PROPS = "Properties_C04"
-RULE = ("trace cases: every head pair (r,w) of rings of size 1,2,4,8,16 x every API call with size arguments at and "
+RULE = ("rings are created through a guard-page allocator with requested sizes that are powers of two and not (3, 5, 7, 40, 100, 1000, ...; every buffer access is checked against the allocated extent); trace cases: every head pair (r,w) of rings of size 1,2,4,8,16 x every API call with size arguments at and "
         "around the space boundary, transactions (begin, 1-3 amends, commit) incl. failing amends, random call "
         "sequences, random states of sizes 32..4096; schedule cases: writer/reader programs of <=3 calls on a ring of "
         "size 4 (and 2, 8), all schedules incl. stale loads enumerated depth-first (budgeted in quick, exhaustive in "
@@ -53,6 +53,21 @@ def build(ctx):
 
 
 # ------------------------------------------------------------------ generators
+def req_sizes(k):
+    """requested sizes that zix_ring_new rounds up to 2^k"""
+    N = 1 << k
+    if k == 0:
+        return [1]
+    lo = N // 2 + 1
+    return sorted(set([lo, N - 1, N, (lo + N) // 2]) & set(range(lo, N + 1)))
+
+
+def ksize(r, k):
+    """size token: the power of two itself or a smaller requested size that rounds up to it"""
+    req = r.choice(req_sizes(k))
+    return "%d" % k if req == (1 << k) else "%d/%d" % (k, req)
+
+
 def ops_for_state(N, r, w):
     """single API calls worth trying in state (r, w): sizes at and around the space boundaries"""
     rs = (w - r) % N
@@ -101,7 +116,7 @@ def gen(ctx, seed, tier):
                 for ops in ops_for_state(N, rh, wh):
                     if k == 4 and tier == "quick" and r.random() < 0.6:
                         continue
-                    cases.append("T %d %d %d %s" % (k, rh, wh, " ".join(ops)))
+                    cases.append("T %s %d %d %s" % (ksize(r, k), rh, wh, " ".join(ops)))
     # random sequences on small rings
     for _ in range(600 if tier == "quick" else 4000):
         k = r.choice([1, 2, 2, 3, 3, 4])
@@ -116,8 +131,14 @@ def gen(ctx, seed, tier):
                 seq.append(c)
             else:
                 seq.append("%s%d" % (c, n))
-        cases.append("T %d %d %d %s" % (k, r.randrange(N), r.randrange(N), " ".join(seq)))
+        cases.append("T %s %d %d %s" % (ksize(r, k), r.randrange(N), r.randrange(N), " ".join(seq)))
     # larger rings, random states
+    # fixed non-power-of-two requests 3, 5, 40, 100, 1000: fill the ring so the write head passes index `size`
+    for (k, req) in [(2, 3), (3, 5), (6, 40), (7, 100), (10, 1000)]:
+        N = 1 << k
+        for rh in (0, 1, req - 1, req % N, N - 1):
+            cases.append("T %d/%d %d %d W%d s R%d W%d R%d" % (k, req, rh, rh, N - 1, N - 1, N - 1, N - 1))
+            cases.append("T %d/%d %d %d B A%d A%d C P%d K1 R%d" % (k, req, rh, rh, N // 2, N // 2 - 1, N - 1, N - 2))
     big = [(5, 60), (6, 60), (8, 40), (10, 12), (12, 3)] if tier == "quick" else [(5, 300), (6, 300), (8, 200), (10, 60), (12, 12)]
     for k, cnt in big:
         N = 1 << k
@@ -130,7 +151,7 @@ def gen(ctx, seed, tier):
             op = r.choice(["W%d" % ws, "W%d" % (ws + 1), "W%d" % r.randint(0, N), "R%d" % rs, "R%d" % (rs + 1),
                            "P%d" % r.randint(0, N), "K%d" % rs, "R%d" % r.randint(0, N), "S", "s",
                            "B A%d A%d C s" % (ws // 2, ws - ws // 2), "W%d R%d" % (ws, rs + ws)])
-            cases.append("T %d %d %d %s" % (k, rh, wh, op))
+            cases.append("T %s %d %d %s" % (ksize(r, k), rh, wh, op))
     # schedule search on the unchanged code (must all be ok)
     cases += sched_cases(ctx, seed, tier, broken=False)
     return cases
@@ -141,24 +162,26 @@ def sched_cases(ctx, seed, tier, broken):
     out = []
     if tier == "quick" and not broken:
         for (w, rd) in FIXED_PROGS[:4]:
-            out.append("X 2 %s / %s / E 1200000" % (w, rd))
+            out.append("X %s %s / %s / E 1200000" % (r.choice(["2", "2/3"]), w, rd))
         for (w, rd) in FIXED_PROGS[4:] + sched_programs(r, 20):
-            out.append("X %d %s / %s / S %d 40000" % (r.choice([1, 2, 2, 3]), w, rd, r.randrange(1 << 30)))
+            out.append("X %s %s / %s / S %d 40000" % (r.choice(["1", "2", "2/3", "3", "3/5"]), w, rd, r.randrange(1 << 30)))
+        out.append("X 2/3 W3 W3 W2 / R3 R3 R2 / S %d 40000" % r.randrange(1 << 30))
+        out.append("X 3/5 W3 W3 W3 / R3 R3 R3 / S %d 40000" % r.randrange(1 << 30))
     elif tier == "quick":
         for (w, rd) in FIXED_PROGS:
-            out.append("X 2 %s / %s / E 400000" % (w, rd))
+            out.append("X %s %s / %s / E 400000" % (r.choice(["2", "2/3"]), w, rd))
         for (w, rd) in sched_programs(r, 24):
-            out.append("X %d %s / %s / S %d 20000" % (r.choice([1, 2, 2, 3]), w, rd, r.randrange(1 << 30)))
+            out.append("X %s %s / %s / S %d 20000" % (r.choice(["1", "2", "2/3", "3", "3/5"]), w, rd, r.randrange(1 << 30)))
     else:
         # exhaustive: every schedule (incl. every stale-load choice) of programs of <= 3 calls per side, ring size 4
         for (w, rd) in FIXED_PROGS:
-            out.append("X 2 %s / %s / E 60000000" % (w, rd))
+            out.append("X %s %s / %s / E 60000000" % (r.choice(["2", "2/3"]), w, rd))
         for (w, rd) in sched_programs(r, 150 if not broken else 40):
-            out.append("X 2 %s / %s / E 60000000" % (w, rd))
+            out.append("X %s %s / %s / E 60000000" % (r.choice(["2", "2/3"]), w, rd))
         for (w, rd) in sched_programs(r, 30 if not broken else 10):
-            out.append("X %d %s / %s / E 20000000" % (r.choice([1, 3]), w, rd))
+            out.append("X %s %s / %s / E 20000000" % (r.choice(["1", "3", "3/5", "3/7"]), w, rd))
         for (w, rd) in sched_programs(r, 60 if not broken else 20, maxcalls=6):
-            out.append("X %d %s / %s / S %d 1500000" % (r.choice([1, 2, 3]), w, rd, r.randrange(1 << 30)))
+            out.append("X %s %s / %s / S %d 1500000" % (r.choice(["1", "2", "2/3", "3", "3/5"]), w, rd, r.randrange(1 << 30)))
     return out
 
 
